@@ -385,6 +385,16 @@ FORMATS = ["csv", "tsv", "json", "jsonl", "dkvp", "dkvpx", "nidx", "xtab", "ppri
 IN_FLAG = {f: ["-i", f] for f in FORMATS}
 IN_FLAG["jsonl"] = ["--ijsonl"]          # `-i jsonl` is itself under test in part 2
 OUT_FLAG = {f: ["-o", f] for f in FORMATS}
+# space-aligned / space-separated variants: fields separated by runs of the ASCII space and nothing else
+VARIANTS = {
+    "pprint-right": (["-i", "pprint"], ["-o", "pprint", "--right"]),
+    "pprint-barred": (["-i", "pprint", "--barred-input"], ["-o", "pprint", "--barred"]),
+    "nidx-space": (["-i", "nidx", "--ifs", "space", "--repifs"], ["-o", "nidx", "--ofs", "space"]),
+    "dkvp-space": (["-i", "dkvp", "--ifs", "space", "--repifs"], ["-o", "dkvp", "--ofs", "space"]),
+}
+for _v, (_i, _o) in VARIANTS.items():
+    IN_FLAG[_v], OUT_FLAG[_v] = _i, _o
+SPACE_ALIGNED = ["pprint", "pprint-right", "pprint-barred", "xtab", "dkvp-space"]
 
 
 def data_classes(rng):
@@ -399,7 +409,17 @@ def data_classes(rng):
     hetero = [Obj([("a", tok()), ("b", tok())]), Obj([("b", tok()), ("c", tok()), ("d", tok())]), Obj([("a", tok())])]
     nested = [Obj([("id", NumText(str(i))), ("req", Obj([("method", rng.choice(TOKENS)), ("sz", [NumText("1"), NumText(str(i + 2)), Obj([("u", rng.choice(TOKENS))])])])),
                    ("tags", [rng.choice(TOKENS), rng.choice(TOKENS)]), ("e", Obj([])), ("l", [])]) for i in range(3)]
-    all_but_nidx = [f for f in FORMATS if f != "nidx"]
+    all_but_nidx = [f for f in FORMATS if f != "nidx"] + ["pprint-right", "pprint-barred", "dkvp-space"]
+    # whitespace other than the ASCII space and LF, inside keys and values (never at either end: several readers trim).
+    # TAB, NBSP, IDEOGRAPHIC SPACE, EM SPACE, NEL, VT, FF, CR are no field separator of any space-aligned format.
+    ws = ["\t", "\u00a0", "\u3000", "\u2003", "\u0085", "\v", "\f", "\r"]
+    def wsval():
+        return rng.choice(["a", "tab", "no", "x1"]) + "".join(rng.choice(ws) + rng.choice(["b", "here", "q", "7"]) for _ in range(rng.choice([1, 1, 2])))
+    wkeys = ["id", "na\u00a0me", "t\tk", "k\u3000w"]
+    whitespace = [Obj([(k, wsval() if j or i % 2 else rng.choice(TOKENS)) for j, k in enumerate(wkeys)]) for i in range(5)]
+    whitespace += [Obj([(k, "x" + c + "y") for k, c in zip(wkeys, ws[o:] + ws[:o])]) for o in (0, 4)]
+    ws_positional = [Obj([(str(j + 1), wsval()) for j in range(3)]) for _ in range(4)] + [Obj([(str(j + 1), "x" + c + "y") for j, c in enumerate(t)]) for t in (ws[0:3], ws[3:6], ws[6:8] + ws[0:1])]
+    ws_formats = ["json", "jsonl", "csv", "tsv", "dkvp", "dkvpx", "csvlite", "markdown"] + SPACE_ALIGNED
     jnums = ["1e5", "-0.0", "1E-3", "0.5", "-7", "12345678901234567890", "1.7976931348623157e308", "100", "0", "2.50", "6.02e+23"]
     numbers = [Obj([(k, NumText(rng.choice(jnums))) for k in ["n1", "n2", "n3"]]) for _ in range(5)]
     qvals = ["line1\nline2", "tab\there", 'say "hi"', '"', "a,b", " lead", "trail ", "a;b|c=d", "{x}", "[1,2]", "it's", "", "#c", "-"]
@@ -411,7 +431,9 @@ def data_classes(rng):
         ("quoted", quoted, ["csv", "tsv", "json", "jsonl"]),
         ("unicode", unicode_, all_but_nidx),
         ("tokens", tokens, all_but_nidx),
-        ("positional", positional, FORMATS),
+        ("whitespace", whitespace, ws_formats),
+        ("whitespace-positional", ws_positional, ["json", "csv", "nidx-space", "dkvp-space", "pprint", "pprint-right", "xtab"]),
+        ("positional", positional, FORMATS + ["nidx-space"]),
         ("rich", rich, ["csv", "tsv", "json", "jsonl", "dkvpx", "yaml"]),
         ("hetero", hetero, ["json", "jsonl", "dkvp", "dkvpx", "xtab", "yaml", "csvlite", "pprint"]),
         ("nested", nested, [f for f in all_but_nidx]),
@@ -427,6 +449,7 @@ def part3_conversions(ctx):
     canon = {}
     classes = data_classes(rng)
     cjobs = [(name, f, ("\n".join(jdumps(r) for r in recs) + "\n").encode()) for name, recs, fmts in classes for f in fmts]
+    masters = {name: "\n".join(jdumps(r) for r in recs) + "\n" for name, recs, fmts in classes}
     cres = c02_batch.run_jobs(ctx, [(["--ijsonl"] + OUT_FLAG[f] + ["cat"], src) for name, f, src in cjobs], label="part3_impl_batch", crosscheck=0)
     for (name, f, src), (st, out, err) in zip(cjobs, cres):
         if classify_run(st, err) != "ok":
@@ -436,7 +459,7 @@ def part3_conversions(ctx):
     for name, recs, fmts in classes:
         for a in fmts:
             for b in fmts:
-                if name == "positional" and ctx.tier == "quick" and "nidx" not in (a, b):
+                if name == "positional" and ctx.tier == "quick" and not ({"nidx", "nidx-space"} & {a, b}):
                     continue        # the pairs without nidx are exercised by the class "tokens"
                 if (name, a) in canon and (name, b) in canon:
                     jobs.append((name, a, b))
@@ -467,7 +490,9 @@ def part3_conversions(ctx):
         witness = {"class": wclass, "data_class": name, "from": a, "to": b,
                    "input": canon[(name, a)].decode("utf-8", "replace"), "observed": out.decode("utf-8", "replace")[:2000],
                    "expected": canon[(name, b)].decode("utf-8", "replace")[:2000], "status": cls, "stderr": err.decode("utf-8", "replace")[-300:],
-                   "how": "mlr -i %s -o %s cat  vs  mlr -i %s --ojson cat | mlr --ijson -o %s cat" % (a, b, a, b)}
+                   "master_jsonl": masters.get(name, ""),
+                   "how": ("triple json -> %s -> %s versus json -> %s:  mlr --ijsonl %s cat master | mlr %s %s cat   versus   mlr --ijsonl %s cat master"
+                           % (a, b, b, " ".join(OUT_FLAG[a]), " ".join(IN_FLAG[a]), " ".join(OUT_FLAG[b]), " ".join(OUT_FLAG[b])))}
         rep += 1 if ctx.violation(witness) else 0
     ctx.cov["p3_conversions"]["failing_classes"] = sorted(seen_cls)
     # two direct probes of the YAML reader (the causes behind class conversion-from-yaml on today's tree)
